@@ -83,17 +83,19 @@ def run(ctx):
                                     "@dds.data_function('/q_ext')\ndef dq():\n    EXEC_LOG.append('dq')\n    return 'dq'\n", accept=False)
 
             hv = [1]      # the value of the tracked variable HV of the helper module
+            # the helper function and its variable are named plainly, or like Python built-ins (which they then hide)
+            hn, vn = [("h", "HV"), ("filter", "format"), ("input", "max"), ("h", "type")][(depth + 2 * k + n_other) % 4]
 
             def helper_src(v):
-                return "HV = %d\n\ndef h():\n    return 'h%d'\n" % (hv[0], v)
+                return "%s = %d\n\ndef %s():\n    return 'h%d'\n" % (vn, hv[0], hn, v)
 
             def main_src(v):
                 # the helper's function h and its variable HV are reached in the same way (name / from-import / dotted attribute)
                 if form == "same_module":
-                    return ("import dds\nimport %s as ext\n\n%s\ndef top():\n    return h() + ext.e() + str(HV)\n" % (extname, helper_src(v)))
+                    return ("import dds\nimport %s as ext\n\n%s\ndef top():\n    return %s() + ext.e() + str(%s)\n" % (extname, helper_src(v), hn, vn))
                 if form == "from_import":
-                    return ("import dds\nimport %s as ext\nfrom %s import h, HV\n\ndef top():\n    return h() + ext.e() + str(HV)\n" % (extname, helpmod))
-                return ("import dds\nimport %s as ext\nimport %s\n\ndef top():\n    return %s.h() + ext.e() + str(%s.HV)\n" % (extname, helpmod, helpmod, helpmod))
+                    return ("import dds\nimport %s as ext\nfrom %s import %s, %s\n\ndef top():\n    return %s() + ext.e() + str(%s)\n" % (extname, helpmod, hn, vn, hn, vn))
+                return ("import dds\nimport %s as ext\nimport %s\n\ndef top():\n    return %s.%s() + ext.e() + str(%s.%s)\n" % (extname, helpmod, helpmod, hn, helpmod, vn))
             # accept exactly: prefix of depth k (+ n_other unrelated packages)
             for p in list(_accepted_packages):
                 if p not in before:
@@ -111,7 +113,8 @@ def run(ctx):
             w.write_module(helpmod, helper_src(1), accept=False)
             mod = w.write_module(modname, main_src(1), accept=False)
             case = {"package_depth": depth, "accepted_prefix": ".".join(pk[:k]).replace(root, "ROOT"), "n_accepted": len(_accepted_packages),
-                    "import_form": form, "sub_module_registered": "before" if sub_first else "after"}
+                    "import_form": form, "sub_module_registered": "before" if sub_first else "after",
+                    "helper_names": [hn, vn]}
             res.evaluations += 1
             res.nontrivial(case)
 
